@@ -1279,7 +1279,7 @@ func c07gen(c *h.Ctx, yield func(*h.Case)) {
 		"proto badprotoU member 1", "proto badprotonewU member 1", "resptree U roX good roX 1", "resptree U roX good roX 1", "resptree U roX empty roX 1", "resptree U roX other roX 1",
 		"resptree U roK good roK 1", "treemarshal U roX good", "treemarshal U roK good", "sendroster roX 1", "reqtree U 0", "reqtree K 0", "reqroster roX",
 		"proto freshK member 1", "proto freshR member 1", "config 1 freshU"}
-	for i := 0; i < c.Pick(36, 900); i++ {
+	for i := 0; i < c.Pick(30, 900); i++ {
 		m := mode(i)
 		ops := []string{fmt.Sprintf("c07 state %s %s", states[r.Intn(3)], m)}
 		if r.Intn(6) > 0 {
@@ -1313,7 +1313,7 @@ func c07gen(c *h.Ctx, yield func(*h.Case)) {
 		yield(&h.Case{Class: "window " + m, Ops: ops})
 	}
 	// the same between IsRegistered and Register of a message whose tree (U, or the zero id) is unknown
-	for i := 0; i < c.Pick(24, 600); i++ {
+	for i := 0; i < c.Pick(20, 600); i++ {
 		m := mode(i)
 		ops := []string{fmt.Sprintf("c07 state %s %s", states[r.Intn(3)], m)}
 		nb := 0
@@ -1344,7 +1344,7 @@ func c07gen(c *h.Ctx, yield func(*h.Case)) {
 	}
 	// well-formed messages that meet a busy routine of the server (round-7 seeds): a late message for a finished run and
 	// a config message for it while another instance is shutting down; one run's aggregated channel full
-	for i := 0; i < c.Pick(4, 40); i++ {
+	for i := 0; i < c.Pick(3, 40); i++ {
 		var ops []string
 		if i%2 == 0 {
 			ops = []string{fmt.Sprintf("c07 state %s direct", []string{"afterdone", "afterdone", "idle", "midrun"}[(i/2)%4]), fmt.Sprintf("c07 lockrace %d", 2+r.Intn(3))}
@@ -1361,7 +1361,7 @@ func c07gen(c *h.Ctx, yield func(*h.Case)) {
 	// several handlers held at once (three-way and wider interleavings): up to three protocol messages wait past their
 	// tree lookup / between IsRegistered and Register while envelopes are handled and unused trees are removed; they go
 	// on in any order. The first case is the schedule of the non-vacuity example of Props/C07.lean.
-	for i := 0; i < c.Pick(24, 800); i++ {
+	for i := 0; i < c.Pick(20, 800); i++ {
 		ops := []string{fmt.Sprintf("c07 state %s direct", states[r.Intn(3)])}
 		if i == 0 {
 			ops = []string{"c07 state idle direct", "c07 proto badprotoU member 1", "c07 resptree U roX good roX 1", "c07 hold freshU member 1", "c07 hold freshU member 2",
